@@ -1724,14 +1724,16 @@ class SpaceUpdater(SharedSpaceOperations):
 
             # Check name conflict between spaces, cells, refs
             members = {}
-            for attr in ["spaces", "cells", "refs"]:
+            for attr in ["spaces", "cells", "own_refs"]:
                 namechain = []
-                for sname in mro:
+                # Child spaces are not inherited
+                for sname in mro[:1] if attr == "spaces" else mro:
                     space = self._graph.to_space(sname)
                     namechain.append(set(getattr(space, attr).keys()))
                 members[attr] = set().union(*namechain)
 
-            conflict = set().intersection(*[n for n in members.values()])
+            conflict = set().union(*[
+                a & b for a, b in itertools.combinations(members.values(), 2)])
             if conflict:
                 raise NameError("name conflict: %s" % conflict)
 
